@@ -2,5 +2,6 @@
 # Builds the real ps3netsrv-go binary from /repo's current working tree (for the black-box streams).
 set -e
 export GOFLAGS=-mod=mod GOPROXY=off GOSUMDB=off GOTOOLCHAIN=local CGO_ENABLED=0
-mkdir -p /verif/.build; rm -f /verif/.build/ps3netsrv-go
-cd /repo && go build -o /verif/.build/ps3netsrv-go ./cmd/ps3netsrv-go
+V=$(cd "$(dirname "$0")" && pwd); REPO=${VERIF_REPO:-/repo}
+mkdir -p $V/.build; rm -f $V/.build/ps3netsrv-go
+cd $REPO && go build -o $V/.build/ps3netsrv-go ./cmd/ps3netsrv-go
